@@ -66,7 +66,7 @@ theorem extends_layoutProp (w : World) (cv : ClassV) : Extends w.heap (layoutPro
   extends_foldl _ extends_allocProp cv.dict (w.heap, [])
 
 theorem extends_layout (w : World) (cv : ClassV) : Extends w.heap (layout w cv).heap := by
-  show Extends w.heap (layoutAcc (w.restrictTo cv.decl.mro) cv (layoutDecl w cv)).1
+  show Extends w.heap (layoutAcc (w.restrictTo cv.decl.mro.tail) cv (layoutDecl w cv)).1
   exact ((extends_layoutProp w cv).trans (extends_foldl _ (extends_allocDecl _) cv.dict ((layoutProp w cv).1, []))).trans
     (extends_foldl _ (extends_allocAcc _ _ _) cv.dict ((layoutDecl w cv).1, []))
 
@@ -1028,19 +1028,19 @@ theorem preserve_define (T : Tables) (w : World) (d : ClassDecl) (hadm : w.findC
     freshOrInv_foldl _ _ _ (freshOrInv_allocDecl _ _ _) cv.dict ((layoutProp w cv).1, []) ⟨s0inv.1, by simp⟩
   have hsd : ∀ nr ∈ (layoutDecl w cv).2, w.heap.length ≤ nr.2 ∧ nr.2 < (layoutDecl w cv).1.length :=
     fun nr h => (s1inv.2 nr h).1
-  have hreach : ∀ x, ClassReach (w.restrictTo cv.decl.mro) x → ClassReach w x := by
+  have hreach : ∀ x, ClassReach (w.restrictTo cv.decl.mro.tail) x → ClassReach w x := by
     rintro x ⟨c, hc⟩
     obtain ⟨root, hroot, hx⟩ := List.mem_flatMap.1 hc
     exact ⟨c, List.mem_flatMap.2 ⟨root, roots_of_restrictTo hroot, hx⟩⟩
-  have s2inv : FreshOrInv w.heap.length (ClassReach (w.restrictTo cv.decl.mro))
-      (layoutAcc (w.restrictTo cv.decl.mro) cv (layoutDecl w cv)) :=
-    freshOrInv_layoutAcc (w.restrictTo cv.decl.mro) cv.decl.name _ _ _ hsd cv.dict ((layoutDecl w cv).1, [])
+  have s2inv : FreshOrInv w.heap.length (ClassReach (w.restrictTo cv.decl.mro.tail))
+      (layoutAcc (w.restrictTo cv.decl.mro.tail) cv (layoutDecl w cv)) :=
+    freshOrInv_layoutAcc (w.restrictTo cv.decl.mro.tail) cv.decl.name _ _ _ hsd cv.dict ((layoutDecl w cv).1, [])
       ⟨⟨s1inv.1, by simp⟩, Nat.le_refl _⟩
-  have he12 : Extends (layoutDecl w cv).1 (layoutAcc (w.restrictTo cv.decl.mro) cv (layoutDecl w cv)).1 :=
+  have he12 : Extends (layoutDecl w cv).1 (layoutAcc (w.restrictTo cv.decl.mro.tail) cv (layoutDecl w cv)).1 :=
     extends_foldl _ (extends_allocAcc _ _ _) cv.dict ((layoutDecl w cv).1, [])
-  have hheap : (layout w cv).heap = (layoutAcc (w.restrictTo cv.decl.mro) cv (layoutDecl w cv)).1 := rfl
+  have hheap : (layout w cv).heap = (layoutAcc (w.restrictTo cv.decl.mro.tail) cv (layoutDecl w cv)).1 := rfl
   -- objects of the new class: from pass 2
-  have own2 : ∀ nr ∈ (layoutAcc (w.restrictTo cv.decl.mro) cv (layoutDecl w cv)).2, ∀ x ∈ reachAcc (layout w cv).heap nr.2,
+  have own2 : ∀ nr ∈ (layoutAcc (w.restrictTo cv.decl.mro.tail) cv (layoutDecl w cv)).2, ∀ x ∈ reachAcc (layout w cv).heap nr.2,
       (w.heap.length ≤ x ∧ x < (layout w cv).heap.length) ∨ ClassReach w x := by
     intro nr hnr x hx
     rw [hheap] at hx ⊢
@@ -1077,7 +1077,7 @@ theorem preserve_define (T : Tables) (w : World) (d : ClassDecl) (hadm : w.findC
         rw [reachAcc_congr ((extends_layout w cv).get (root_lt hb hc))] at hx
         exact ⟨c, root_reach hc hx⟩
     · -- an accessible
-      have hcases : nr ∈ (layoutAcc (w.restrictTo cv.decl.mro) cv (layoutDecl w cv)).2 ∨ ∃ c, nr.2 ∈ w.roots (.cls c) := by
+      have hcases : nr ∈ (layoutAcc (w.restrictTo cv.decl.mro.tail) cv (layoutDecl w cv)).2 ∨ ∃ c, nr.2 ∈ w.roots (.cls c) := by
         simp only [layoutRec, layoutAccessibles] at hnr
         split at hnr
         · obtain ⟨ns, _, hns⟩ := List.mem_filterMap.1 hnr
